@@ -39,7 +39,7 @@ func checkC20(c *Check) {
 				return true
 			}
 			fn := Callee(fi.Pkg.TypesInfo, call)
-			if fn == nil || fn.Name() != "New" || fn.Pkg() == nil || !strings.HasSuffix(fn.Pkg().Path(), "parser/alias_trie") {
+			if fn == nil || !nameIs(fn, "New") || fn.Pkg() == nil || !strings.HasSuffix(fn.Pkg().Path(), "parser/alias_trie") {
 				return true
 			}
 			nNew++
@@ -136,9 +136,29 @@ func checkC20(c *Check) {
 	r3 := c.Rule("R20.3", "OrderedMap.data has a closed writer set; Set/Get/Delete locate through binarySearch; copies keep the predicate pair", 6)
 	writersOK := map[string]bool{"ordered_map.New": true, "ordered_map.Copy": true, "ordered_map.(*OrderedMap).Set": true, "ordered_map.(*OrderedMap).Delete": true}
 	om := L.ByRel["src/parser/ordered_map"]
+	// the storage of the map: the slice-typed field of OrderedMap (whatever it is called)
+	var storage *types.Var
+	if tn, ok := om.Types.Scope().Lookup("OrderedMap").(*types.TypeName); ok {
+		if st, ok := tn.Type().Underlying().(*types.Struct); ok {
+			for i := 0; i < st.NumFields(); i++ {
+				if _, isSlice := st.Field(i).Type().Underlying().(*types.Slice); isSlice {
+					if storage != nil {
+						storage = nil
+						break
+					}
+					storage = st.Field(i)
+				}
+			}
+		}
+	}
+	if storage == nil {
+		r3.Und("ordered_map.OrderedMap|storage field", token.NoPos, "the one slice-typed field of OrderedMap was not found")
+	}
+	nWrites := 0
 	for _, w := range L.FieldWrites(func(v *types.Var) bool {
-		return v.Name() == "data" && v.Pkg() == om.Types && v.IsField()
+		return storage != nil && v.IsField() && v.Pkg() == om.Types && v.Origin() == storage.Origin()
 	}) {
+		nWrites++
 		q := L.QName(w.Fn.Obj)
 		r3.Decide(writersOK[q] && w.Fn.Pkg == om, q+"|write data", w.Node.Pos(), "writer in the closed set", "OrderedMap.data written outside New/Copy/Set/Delete: sortedness/pairing invariant can break")
 	}
@@ -146,7 +166,7 @@ func checkC20(c *Check) {
 	L.ForEachFunc([]string{"src/parser/ordered_map"}, func(fi *FuncInfo) {
 		ast.Inspect(fi.Decl.Body, func(n ast.Node) bool {
 			if cl, ok := n.(*ast.CompositeLit); ok {
-				if nt, ok := om.TypesInfo.TypeOf(cl).(*types.Named); ok && nt.Obj().Name() == "OrderedMap" {
+				if nt, ok := om.TypesInfo.TypeOf(cl).(*types.Named); ok && nameIs(nt.Obj(), "OrderedMap") {
 					q := L.QName(fi.Obj)
 					r3.Decide(writersOK[q], q+"|OrderedMap literal", cl.Pos(), "constructor", "OrderedMap constructed outside New/Copy")
 				}
@@ -154,22 +174,43 @@ func checkC20(c *Check) {
 			return true
 		})
 	})
+	if storage != nil && nWrites == 0 {
+		r3.Und("ordered_map.OrderedMap|storage field", token.NoPos, "no write of the storage field found")
+	}
+	// the shared locator: the one method of the map that Set, Get and Delete all call (binarySearch, whatever it is called)
+	calleesOf := map[string]map[*types.Func]int{}
 	for _, nm := range []string{"Set", "Get", "Delete"} {
 		fi := L.Fn("src/parser/ordered_map.(*OrderedMap)." + nm)
 		if fi == nil {
 			r3.Und("ordered_map.(*OrderedMap)."+nm, token.NoPos, "method not found")
 			continue
 		}
-		calls := 0
+		calleesOf[nm] = map[*types.Func]int{}
 		ast.Inspect(fi.Decl.Body, func(n ast.Node) bool {
 			if call, ok := n.(*ast.CallExpr); ok {
-				if fn := Callee(om.TypesInfo, call); fn != nil && fn.Name() == "binarySearch" {
-					calls++
+				if fn := Callee(om.TypesInfo, call); fn != nil && fn.Pkg() == om.Types {
+					if sig, ok := fn.Type().(*types.Signature); ok && sig.Recv() != nil {
+						calleesOf[nm][fn.Origin()]++
+					}
 				}
 			}
 			return true
 		})
-		r3.Decide(calls == 1, "ordered_map.(*OrderedMap)."+nm+"|locates via binarySearch", fi.Decl.Pos(), "locates the key through binarySearch", nm+" does not locate the key through the shared binarySearch")
+	}
+	var locator *types.Func
+	if len(calleesOf) == 3 {
+		for fn := range calleesOf["Set"] {
+			if calleesOf["Get"][fn] > 0 && calleesOf["Delete"][fn] > 0 {
+				locator = fn
+			}
+		}
+	}
+	for _, nm := range []string{"Set", "Get", "Delete"} {
+		fi := L.Fn("src/parser/ordered_map.(*OrderedMap)." + nm)
+		if fi == nil {
+			continue
+		}
+		r3.Decide(locator != nil && calleesOf[nm][locator] == 1, "ordered_map.(*OrderedMap)."+nm+"|locates via binarySearch", fi.Decl.Pos(), "locates the key through the one search method shared by Set, Get and Delete", nm+" does not locate the key through a search method shared with the other two operations")
 	}
 	// Copy and copyNode pass the predicates on unchanged
 	if fi := L.Fn("src/parser/ordered_map.Copy"); fi != nil {
@@ -195,10 +236,10 @@ func checkC20(c *Check) {
 		okc := false
 		ast.Inspect(fi.Decl.Body, func(n ast.Node) bool {
 			if call, ok := n.(*ast.CallExpr); ok {
-				if fn := Callee(at.TypesInfo, call); fn != nil && fn.Name() == "copyNode" && len(call.Args) == 3 {
+				if fn := Callee(at.TypesInfo, call); fn != nil && nameIs(fn, "copyNode") && len(call.Args) == 3 {
 					f1, ok1 := ast.Unparen(call.Args[1]).(*ast.SelectorExpr)
 					f2, ok2 := ast.Unparen(call.Args[2]).(*ast.SelectorExpr)
-					okc = ok1 && ok2 && f1.Sel.Name == "key_eq" && f2.Sel.Name == "key_less" && isParamOf(at.TypesInfo, fi, f1.X) && isParamOf(at.TypesInfo, fi, f2.X)
+					okc = ok1 && ok2 && selName(at.TypesInfo, f1) == "key_eq" && selName(at.TypesInfo, f2) == "key_less" && isParamOf(at.TypesInfo, fi, f1.X) && isParamOf(at.TypesInfo, fi, f2.X)
 				}
 			}
 			return true
@@ -216,11 +257,11 @@ func checkC20(c *Check) {
 		ast.Inspect(fi.Decl.Body, func(n ast.Node) bool {
 			if call, ok := n.(*ast.CallExpr); ok {
 				fn := Callee(at.TypesInfo, call)
-				if fn != nil && (fn.Name() == "New" || fn.Name() == "copyNode") && len(call.Args) == 3 && len(params) == 3 {
-					if fn.Name() == "New" && L.Src(call.Args[0]) == params[1] && L.Src(call.Args[1]) == params[2] {
+				if fn != nil && (nameIs(fn, "New") || nameIs(fn, "copyNode")) && len(call.Args) == 3 && len(params) == 3 {
+					if nameIs(fn, "New") && L.Src(call.Args[0]) == params[1] && L.Src(call.Args[1]) == params[2] {
 						okc++
 					}
-					if fn.Name() == "copyNode" && L.Src(call.Args[1]) == params[1] && L.Src(call.Args[2]) == params[2] {
+					if nameIs(fn, "copyNode") && L.Src(call.Args[1]) == params[1] && L.Src(call.Args[2]) == params[2] {
 						okc++
 					}
 				}
@@ -239,7 +280,7 @@ func checkC20(c *Check) {
 			if !ok {
 				return true
 			}
-			if fn := Callee(at.TypesInfo, call); fn != nil && fn.Name() == "IterateKeys" && len(call.Args) == 1 {
+			if fn := Callee(at.TypesInfo, call); fn != nil && nameIs(fn, "IterateKeys") && len(call.Args) == 1 {
 				if fl, ok := call.Args[0].(*ast.FuncLit); ok {
 					found = true
 					all := true
@@ -274,10 +315,10 @@ func checkC20(c *Check) {
 			switch x := n.(type) {
 			case *ast.CallExpr:
 				if fn := Callee(at.TypesInfo, x); fn != nil {
-					if fn.Name() == "Get" {
+					if nameIs(fn, "Get") {
 						gets++
 					}
-					if fn.Name() == "Set" {
+					if nameIs(fn, "Set") {
 						sets++
 					}
 				}
@@ -294,7 +335,7 @@ func checkC20(c *Check) {
 
 func isTokField(info *types.Info, e ast.Expr, name string) bool {
 	v := fieldOf(info, e)
-	return v != nil && v.Name() == name && v.Pkg() != nil && v.Pkg().Name() == "token"
+	return v != nil && v.Name() == name && v.Pkg() != nil && nameIs(v.Pkg(), "token")
 }
 
 // keyExprs lists, normalised (t1/t2 -> t), the expressions compared pairwise in the statements.
@@ -360,7 +401,7 @@ func checkAliasParamKeys(c *Check, r *Rule, eqBody, lessBody []ast.Stmt, pos tok
 		ast.Inspect(pte.Decl.Body, func(n ast.Node) bool {
 			switch x := n.(type) {
 			case *ast.CallExpr:
-				if fn := Callee(dinfo, x); fn != nil && fn.Name() == "Equal" {
+				if fn := Callee(dinfo, x); fn != nil && nameIs(fn, "Equal") {
 					hasEqual = true
 				}
 			case *ast.BinaryExpr:
@@ -385,7 +426,7 @@ func checkAliasParamKeys(c *Check, r *Rule, eqBody, lessBody []ast.Stmt, pos tok
 			}
 			stack = append(stack, n)
 			if sel, ok := n.(*ast.SelectorExpr); ok {
-				if v := fieldOf(info, sel); v != nil && v.Name() == "Type" && v.Pkg() != nil && v.Pkg().Name() == "ddptypes" {
+				if v := fieldOf(info, sel); v != nil && nameIs(v, "Type") && v.Pkg() != nil && nameIs(v.Pkg(), "ddptypes") {
 					// parent must be a call argument of a normalised view
 					okUse := false
 					if len(stack) >= 2 {
@@ -406,7 +447,7 @@ func checkAliasParamKeys(c *Check, r *Rule, eqBody, lessBody []ast.Stmt, pos tok
 				}
 			}
 			if call, ok := n.(*ast.CallExpr); ok {
-				if fn := Callee(info, call); fn != nil && fn.Name() == "String" && len(call.Args) == 0 {
+				if fn := Callee(info, call); fn != nil && nameIs(fn, "String") && len(call.Args) == 0 {
 					if s, ok := call.Fun.(*ast.SelectorExpr); ok && isDDPType(info.TypeOf(s.X)) {
 						stringKey = call.Pos()
 					}
@@ -610,7 +651,7 @@ func checkInsertProvenance(c *Check) {
 				return true
 			}
 			fn := Callee(info, call)
-			if fn == nil || fn.Name() != "Insert" || fn.Pkg() == nil || !strings.HasSuffix(fn.Pkg().Path(), "alias_trie") {
+			if fn == nil || !nameIs(fn, "Insert") || fn.Pkg() == nil || !strings.HasSuffix(fn.Pkg().Path(), "alias_trie") {
 				return true
 			}
 			q := L.QName(fi.Obj)
